@@ -1387,6 +1387,18 @@ func funcName(fn *ast.FuncDecl) string {
 	return fn.Name.Name
 }
 
+// safeAnalyseSite: a goroutine site whose plumbing has a form the extractor does not know (it indexes into the statement
+// shapes of the current template) must become an UNSUPPORTED site — a broken structural obligation — never a crash of the extractor.
+func safeAnalyseSite(file *ast.File, rel string, kind string, fn *ast.FuncDecl, g *ast.GoStmt, cellDims map[string]int) (s *Site) {
+	defer func() {
+		if r := recover(); r != nil {
+			s = &Site{File: rel, Func: funcName(fn), Kind: kind, Line: line(g),
+				Unsupported: []string{fmt.Sprintf("the goroutine launch at line %d has a form the extractor does not know (%v)", line(g), r)}}
+		}
+	}()
+	return analyseSite(file, rel, kind, fn, g, cellDims)
+}
+
 func analyseSite(file *ast.File, rel string, kind string, fn *ast.FuncDecl, g *ast.GoStmt, cellDims map[string]int) *Site {
 	lit := g.Call.Fun.(*ast.FuncLit)
 	s := &Site{File: rel, Func: funcName(fn), Kind: kind, Line: line(g), Events: []Event{}, Unsupported: []string{},
@@ -1950,8 +1962,15 @@ func main() {
 				facts.Errors = append(facts.Errors, fmt.Sprintf("%s:%d: go statement does not start a function literal", rel, line(g)))
 				continue
 			}
-			s := analyseSite(f, rel, kind, fd, g, facts.CellDims)
-			scanCallees(root, s, filepath.Dir(p), s.Callees, importsOf(f))
+			s := safeAnalyseSite(f, rel, kind, fd, g, facts.CellDims)
+			func() {
+				defer func() {
+					if r := recover(); r != nil {
+						s.Unsupported = append(s.Unsupported, fmt.Sprintf("callee scan failed on a form the extractor does not know: %v", r))
+					}
+				}()
+				scanCallees(root, s, filepath.Dir(p), s.Callees, importsOf(f))
+			}()
 			if kind == "cells" {
 				facts.WrapperSites++
 			}
@@ -1982,7 +2001,7 @@ func main() {
 			if _, ok := g.Call.Fun.(*ast.FuncLit); !ok {
 				continue
 			}
-			s := analyseSite(f, n, "template", fd, g, facts.CellDims)
+			s := safeAnalyseSite(f, n, "template", fd, g, facts.CellDims)
 			facts.TemplateSites++
 			facts.Sites = append(facts.Sites, *s)
 		}
